@@ -1170,6 +1170,21 @@ def c09(tier):
             expect_violation=("OlderIntact", "OverflowAtBack"), label="MCErrorQueue mutant: overflow drops the oldest")
     s.model("MCErrorQueue", ("MCErrorQueueParams", [("K", "2"), ("MaxOps", "6"), ("Variant", '"dropnew"')]),
             expect_violation="OverflowAtBack", label="MCErrorQueue mutant: overflow drops the new error silently")
+    # 1b. the same properties PROVED for arbitrary capacity K >= 1 and arbitrary error sets (TLAPS)
+    pdir = os.path.join(s.wd, "proof")
+    os.makedirs(pdir)
+    import shutil
+    shutil.copy(os.path.join(C.SPEC, "proofs", "ErrorQueueProof.tla"), pdir)
+    r = subprocess.run(["timeout", "600", "tlapm", "--threads", "8", "--cleanfp", "ErrorQueueProof.tla"], cwd=pdir,
+                       stdout=subprocess.PIPE, stderr=subprocess.STDOUT, text=True)
+    import re as _re
+    m = _re.search(r"All (\d+) obligations? proved", r.stdout)
+    if not m:
+        raise C.ToolError("TLAPS did not prove ErrorQueueProof:\n" + r.stdout[-1500:])
+    s.cov["tlaps_obligations"] = int(m.group(1))
+    s.cov["tlaps_discharged"] = int(m.group(1))
+    s.cov["models"].append({"module": "ErrorQueueProof (TLAPS: Safety, PushKeepsOld, PushFullMarks, PushRoomAppends, PopIsFifo for arbitrary K)",
+                            "states": 0, "transitions": 0, "wall_s": 0, "result": "all %s obligations proved" % m.group(1)})
     # 2. end to end: every grouping of faults / queries / commands into messages, implementation-shaped run refines
     hist = {}
     for K in ([1, 2] if tier == "quick" else [1, 2, 3, 4]):
